@@ -13,6 +13,7 @@ import time
 import traceback
 
 from .tape import Tapes
+from . import kernel as _kernel_mod
 
 VERIF = os.path.dirname(os.path.dirname(os.path.abspath(__file__)))
 OUT = os.path.join(VERIF, "out")
@@ -73,6 +74,7 @@ def run_once(mod, tier, verif_seed, run_index, replay=None, scenario=None):
         gc.freeze()
         _frozen[0] = True
     faulthandler.dump_traceback_later(RUN_WATCHDOG, exit=True)
+    _kernel_mod.WATCHDOG[0] = RUN_WATCHDOG
     try:
         if scenario is not None:
             res = mod.run_one(tapes, tier, scenario=scenario)
